@@ -229,6 +229,55 @@ func (cc *caseCtx) leafOf(id int) int {
 	return id
 }
 
+// rawOf: the planner's (raw, pre-merge) fetch ids a request group stands for; alias "" or
+// "_entities" = the whole request of an unmerged fetch.
+func (cc *caseCtx) rawOf(r *fedlab.Request, alias string) []int {
+	var out []int
+	for _, f := range cc.byIdent[r.Ident()] {
+		if f.Kind != "multi" {
+			out = append(out, f.ID)
+			continue
+		}
+		found := false
+		if len(f.Entries) == len(f.Merged) {
+			for j, en := range f.Entries {
+				if en.Alias == alias {
+					out = append(out, f.Merged[j])
+					found = true
+				}
+			}
+		}
+		if !found {
+			out = append(out, f.Merged...)
+		}
+	}
+	return out
+}
+
+// rawDependants: closure of failed under the planner's own (pre-merge) dependencies.
+func (cc *caseCtx) rawDependants(failed map[int]bool) map[int]bool {
+	out := map[int]bool{}
+	for id := range failed {
+		out[id] = true
+	}
+	for changed := true; changed; {
+		changed = false
+		for _, f := range cc.rawByID {
+			if out[f.ID] {
+				continue
+			}
+			for _, d := range f.Deps {
+				if out[d] {
+					out[f.ID] = true
+					changed = true
+					break
+				}
+			}
+		}
+	}
+	return out
+}
+
 func (cc *caseCtx) dependants(failed map[int]bool) map[int]bool {
 	out := map[int]bool{}
 	for id := range failed {
@@ -322,6 +371,18 @@ func (e *env) runFaults(cc *caseCtx, o *outcome, fs []fault) {
 	}
 	c := cc.c
 	res := cc.lab.Run(c.Op.Text(), []byte(c.Op.VariablesJSON()), &fedlab.RunOptions{OperationName: c.Op.Name, BeforeRespond: safeHook, Timeout: 8 * time.Second})
+	slowTwice, firstWall := false, res.Wall
+	if res.Wall > 4*time.Second {
+		// the semantic subgraphs answer inside the round trip, so a stall of the executor child or of the
+		// machine counts against the gateway: the run is repeated once
+		hits = nil
+		res = cc.lab.Run(c.Op.Text(), []byte(c.Op.VariablesJSON()), &fedlab.RunOptions{OperationName: c.Op.Name, BeforeRespond: safeHook, Timeout: 8 * time.Second})
+		if res.Wall > 4*time.Second {
+			slowTwice = true
+		} else {
+			o.Stats["slow_run_not_reproduced"]++
+		}
+	}
 	var hitKinds []string
 	hard := 0
 	for _, h := range hits {
@@ -350,8 +411,17 @@ func (e *env) runFaults(cc *caseCtx, o *outcome, fs []fault) {
 		if has(e2e.K500Body) {
 			cs = append(cs, "status-ignored-with-data")
 		}
-		if has(e2e.KEntMissing) || has(e2e.KEntExtra) {
-			cs = append(cs, "entity-count-ignored")
+		// the recorded finding is about EntityFetch (and single-origin entries of a merged fetch): a
+		// BatchEntityFetch does compare the counts
+		for _, h := range hits {
+			if h.kind != e2e.KEntMissing && h.kind != e2e.KEntExtra {
+				continue
+			}
+			for _, f := range cc.byIdent[h.req.Ident()] {
+				if f.Kind == "entity" || f.Kind == "multi" {
+					cs = append(cs, "entity-count-ignored")
+				}
+			}
 		}
 		// a representation with a null member that the fault-free request of the same entity has non-null
 		nullSent := false
@@ -387,7 +457,15 @@ func (e *env) runFaults(cc *caseCtx, o *outcome, fs []fault) {
 				}
 			}
 		}
-		if nullSent {
+		// the recorded finding is about failures other than transport errors (those are remembered in
+		// erroredFetchIDs and the dependants are skipped)
+		otherThanTransport := false
+		for _, h := range hits {
+			if h.kind != e2e.KTransport {
+				otherThanTransport = true
+			}
+		}
+		if nullSent && otherThanTransport {
 			cs = append(cs, "nullable-requires-null-sent")
 		}
 		// MultiFetch: a merged fetch is skipped as a whole when one of its (union) dependencies is
@@ -440,8 +518,8 @@ func (e *env) runFaults(cc *caseCtx, o *outcome, fs []fault) {
 		o.Stats["hit_"+k]++
 	}
 	// returns
-	if res.Wall > 4*time.Second {
-		viol("returns", "Execute took %v", res.Wall)
+	if slowTwice {
+		viol("returns", "Execute took %v, and %v when repeated", firstWall, res.Wall)
 	}
 	if res.Err != nil && len(res.Response) == 0 {
 		if strings.Contains(res.Err.Error(), "panic") {
@@ -533,14 +611,70 @@ func (e *env) runFaults(cc *caseCtx, o *outcome, fs []fault) {
 		o.Stats["reference_error"]++
 		return
 	}
+	// what MAY be nulled in addition: everything delivered by a fetch of the planner's own (pre-merge) plan that
+	// transitively depends on the fetch of a hit request -- the loader skips dependants of an errored fetch
+	failedRaw := map[int]bool{}
+	for _, h := range hits {
+		alias := ""
+		if e2e.GroupLevel(h.kind) {
+			if gs, err := e2e.ParseRequest(h.req.Query); err == nil {
+				for _, g := range gs {
+					if h.req.Variables != nil && h.req.Variables.Get(g.RepsVar) != nil && len(h.req.Variables.Get(g.RepsVar).Items) > 0 {
+						alias = g.Alias
+						break
+					}
+				}
+			}
+		}
+		var ids []int
+		if alias == "" {
+			for _, f := range cc.byIdent[h.req.Ident()] {
+				if f.Kind == "multi" {
+					ids = append(ids, f.Merged...)
+				} else {
+					ids = append(ids, f.ID)
+				}
+			}
+		} else {
+			ids = cc.rawOf(h.req, alias)
+		}
+		for _, id := range ids {
+			failedRaw[id] = true
+		}
+	}
+	depRaw := cc.rawDependants(failedRaw)
+	mayPairs := append([]e2e.Pair(nil), pairs...)
+	for _, r0 := range cc.base.Requests {
+		ps, err := e2e.DeliverablesWhere(c.Cfg, c.Uni, r0, func(_ int, alias string, _ int, _ *fedlab.J, _ *fedlab.Entity) bool {
+			for _, id := range cc.rawOf(r0, alias) {
+				if depRaw[id] && !failedRaw[id] {
+					return true
+				}
+			}
+			return false
+		})
+		if err == nil {
+			mayPairs = append(mayPairs, ps...)
+		}
+	}
+	mayPairs = e2e.CloseOverRequires(c.Cfg, c.Uni, cc.base.Requests, mayPairs)
+	refMay, err := e.reference(cc, mayPairs)
+	if err != nil {
+		o.Stats["reference_error"]++
+		return
+	}
+	if !refMay.Data.EqualUnordered(ref.Data) {
+		o.Stats["runs_with_plan_dependants_beyond_data_dependants"]++
+	}
 	if e.verbose {
 		fmt.Fprintf(os.Stderr, "--- faults %s (hit: %s)\n", faultsString(fs), hk)
 		for _, r := range res.Requests {
 			fmt.Fprintf(os.Stderr, "  req %d %s %s vars=%s status=%d\n      answer=%s\n", r.Index, r.Subgraph, r.Query, e2e.RepsKey(r), r.Status, fedlab.Trunc(string(r.Response), 400))
 		}
 		fmt.Fprintf(os.Stderr, "  marked: %v\n  gateway:   %s\n  reference: %s\n  faultfree: %s\n", pairs, string(res.Response), ref.Data.String(), cc.base.Data.String())
+		fmt.Fprintf(os.Stderr, "  may-null reference (plan dependants): %s\n", refMay.Data.String())
 	}
-	if d := e2e.LeqDiff(ref.Data, res.Data, "data"); d != "" {
+	if d := e2e.LeqDiff(refMay.Data, res.Data, "data"); d != "" {
 		viol("unaffected_equal", "the gateway nulls more than what depended on the failed request(s): reference keeps %s", d)
 	}
 	// exactness of the reference
@@ -570,8 +704,21 @@ func (e *env) runFaults(cc *caseCtx, o *outcome, fs []fault) {
 					}
 				}
 			}
-			// ent_null: the other entities of the list are answered; a marked pair they bring along nested
+			// ent_null: the other entities of the list are answered: a pair marked through another failed
+			// request that they deliver, or a marked pair they bring along nested
 			if h.kind == e2e.KEntNull {
+				markedPairs := map[e2e.Pair]bool{}
+				for _, p := range pairs {
+					markedPairs[p] = true
+				}
+				others, _ := e2e.DeliverablesWhere(c.Cfg, c.Uni, h.req, func(group int, _ string, i int, _ *fedlab.J, _ *fedlab.Entity) bool {
+					return !(group == 0 && i == 0)
+				})
+				for _, p := range others {
+					if markedPairs[p] {
+						exact = false
+					}
+				}
 				if g := c.Cfg.Subgraph(h.req.Subgraph); g != nil {
 					if _, nested, err := e2e.SelectedPairsNested(c.Cfg.SubSchema(g), h.req.Query); err == nil {
 						for tf := range nested {
